@@ -105,7 +105,7 @@ DTYPES = ["C1", "B1", "I4", "U4", "I8", "U8", "R4", "R8", "X4", "X8"]          #
 BAD_ENTRIES = ["rall", "rblock", "rdata", "wall", "wallt", "wblock", "wdata", "wdatat"]
 BAD_CLASSES = ["badtype", "nulltype", "mismatch", "start0", "endbig", "startgtend", "stride0", "mstart0", "mendbig", "mstride0", "rank0", "rank2", "msmall"]
 STRAND_KINDS = ["dataset", "group", "attr", "datatype"]
-NOTABLE = ("data ", "bad ", "strand ")             # operations that touch no handle table (not given to the model)
+NOTABLE = ("data ", "bad ", "strand ", "multi ")             # operations that touch no handle table (not given to the model)
 MLL_DTYPES = ["Integer", "LongInteger", "RealSingle", "RealDouble", "Character", "ComplexSingle", "ComplexDouble"]
 
 
@@ -159,6 +159,9 @@ def gen_io(rng, big=False):
             ops.append("bad %d %s %s" % (rng.randint(1, max(1, nopen)), rng.choice(BAD_ENTRIES), rng.choice(BAD_CLASSES)))
         elif r < 0.84:
             ops.append("strand %d %s" % (rng.randint(1, max(1, nopen)), rng.choice(STRAND_KINDS)))
+        elif r < 0.86:
+            n1 = rng.choice([1, 3, 8, 60])
+            ops.append("multi %d %s %d %d %d" % (rng.randint(1, max(1, nopen)), rng.choice(DTYPES), n1, n1 + rng.choice([1, 5, 200]), rng.randint(1, 3)))
         else:
             ops.append("close %d" % (rng.randint(1, max(1, nopen)) if rng.random() < 0.9 else rng.randint(0, 9)))
     world = "world %s %s" % (",".join(kinds), ",".join(["%d>%d" % e for e in sorted(links)] + ["%d>%d!" % e for e in sorted(dlinks)]) or "-")
@@ -260,7 +263,7 @@ def io_case(exe, world, ops, backend, work, tag, variant=None, cycles=1, files=N
     il, oc, rep = run_h(exe, "\n".join(script) + "\n", [d, backend], work, tag)
     ml = None
     if variant:
-        ml = vlib.run_model("c17", "variant %s\nfuel 20000\n%s\n" % (variant, "\n".join([world] + [o for o in body if not o.startswith(NOTABLE)])), args=["io"])
+        ml = vlib.run_model("c17", "variant %s\nfuel 20000\n%s\n" % (variant, "\n".join([world] + [o for o in body * cycles if not o.startswith(NOTABLE)])), args=["io"])
     shutil.rmtree(d, ignore_errors=True)
     return {"impl": il, "outcome": oc, "report": rep, "model": ml, "world": world, "ops": ops, "backend": backend, "script": script,
             "files": files or {}}
@@ -345,6 +348,10 @@ def io_oracle(r):
     lk = [x for x in parse_leaks(r["report"]) if x["kind"] == "Direct" and x["in_library"]]
     for x in lk[:3]:
         bad.append(("leak:" + x["alloc_fn"], {"problem": "LeakSanitizer: unreachable block allocated by the library", "leak": x}))
+    hs, grows = heap_slope(il)
+    if grows and len(hs) >= (12 if r["backend"] == "hdf5" else 4) and not bad:
+        bad.append((None, {"problem": "heap grows from repetition to repetition of a session that closes everything",
+                           "heap_at_cycles": hs[:3] + ["..."] + hs[-2:], "bytes_per_cycle": (hs[-1] - hs[-2])}))
     return bad
 
 
@@ -705,6 +712,12 @@ CORPUS_IO = [("world ok,ok 0>1", ["open 0 r", "node 1 1", "close 1"]),
              ("world ok,ok,ok 0>1,1>2", ["open 0 r", "open 1 r", "walk 1 1 2", "walk 2 2", "close 2", "close 1", "open 2 r", "open 2 m", "close 1", "close 2"])]
 
 
+# repeated SUCCESSFUL data calls on nodes with several data chunks (harness op "multi": the recipe of the C02c layer): every data
+# type, sizes that put 2 and 3 chunks in one or in several disk blocks; repeated with LeakSanitizer and the heap slope
+MULTI_IO = [("world ok,ok 0>1", ["open 0 m"] + ["multi 1 %s %d %d 2" % (t, n1, n2) for t in DTYPES] + ["close 1", "open 0 r", "node 1 1", "close 1"])
+            for (n1, n2) in ((1, 2), (7, 300), (600, 601))]
+
+
 def _sc(backend, prep, body):
     return {"prep": ["ftype " + backend] + prep, "body": body, "backend": backend, "shape": "corpus", "nfiles": 0}
 
@@ -1055,6 +1068,9 @@ def run(ck):
         futs.append(pool.submit(io_case, hio, world, ops, "adf", ck.work, "ioa%d" % i, variant if res["ok"] else None))
         if i < len(CORPUS_IO) or i % 2 == 0:
             futs.append(pool.submit(io_case, hio, world, ops, "hdf5", ck.work, "ioh%d" % i, None))
+    for i, (world, ops) in enumerate(MULTI_IO):
+        futs.append(pool.submit(io_case, hio, world, ops, "adf", ck.work, "iom%d" % i, variant if res["ok"] else None, 5))
+        futs.append(pool.submit(io_case, hio, world, ops, "hdf5", ck.work, "iomh%d" % i, None, 13))
     # refused opens: every refusal branch of the open paths, files derived with the C13 machinery (refused_pool)
     rpool, stats["refused_pool"] = refused_pool(ck.work)
     nref = 30 if big else 6
@@ -1082,6 +1098,8 @@ def run(ck):
                 feats.add("failing-data-call")
             if r["files"]:
                 feats.add("refused-opens")
+            if any(o.startswith("multi ") for o in r["ops"]):
+                feats.add("multi-chunk-data")
             if len(set(k for k in r["world"].split()[1].split(",") if k.startswith("ok"))) > 1:
                 feats.add("mixed-layouts")
             if ml and ml[-1] == "diverge":
